@@ -477,7 +477,15 @@ func checkC10(c C10Case) (o Outcome) {
 			wantOK := ref.pfx != 0 && ref.pfx&ref.lock == 0
 			var verdicts []bool
 			for _, b := range bks {
-				err := b.d.Put(ctx, []byte(key), append([]byte{}, op.Val...))
+				// the caller's buffers are the caller's: it goes on to use them for something else
+				kbuf, vbuf := []byte(key), append([]byte{}, op.Val...)
+				err := b.d.Put(ctx, kbuf, vbuf)
+				for i := range kbuf {
+					kbuf[i] = '~'
+				}
+				for i := range vbuf {
+					vbuf[i] ^= 0x5a
+				}
 				verdicts = append(verdicts, err == nil)
 				if wantOK && err != nil {
 					return at(b, "put-refused", "Put failed (%v) although type %d is unlocked", err, ref.pfx)
@@ -524,6 +532,10 @@ func checkC10(c C10Case) (o Outcome) {
 					}
 					if !bytes.Equal(got, want) {
 						return at(b, "get-wrong", "Get = %q, the latest successful write to this type/session/language stored %q", got, want)
+					}
+					// ... and what a read returned is the reader's: changing it changes nothing stored
+					for i := range got {
+						got[i] ^= 0x5a
 					}
 				default:
 					if err == nil {
